@@ -178,14 +178,20 @@ func c16Sizes(tier string) (units, per int) {
 	return 400, 48
 }
 
+// c16Observe: for every second schema text (by hash) the root is created from a []byte which is
+// overwritten after GetAST: the tree handed out must not live on the caller's buffer.
 func c16Observe(sp lib.Spec) (string, lib.Obs) {
-	s, bo := lib.Build(sp)
+	fromBytes := mon.HashString(sp.Text)%2 == 0
+	s, buf, bo := lib.BuildWithBuffer(sp, fromBytes)
 	if !bo.OK {
 		return "", bo
 	}
 	an, ao := lib.SafeVal(s.GetAST)
 	if !ao.OK {
 		return "", ao
+	}
+	for i := range buf {
+		buf[i] = '#'
 	}
 	return astString(an, astOpts{}), ao
 }
@@ -270,10 +276,37 @@ func c16Run(c *mon.Ctx, unit int) {
 				}
 			}
 		})
+		// a key shortcut after a property that carries an annotation (the annotation swallows the
+		// line break after the comma)
+		if s.Type("@key") != nil && r.Chance(1, 3) {
+			s.Root.Walk(func(n *model.Node) {
+				if n.Kind != model.KObject || len(n.Props) == 0 || !r.Chance(1, 2) {
+					return
+				}
+				for _, p := range n.Props {
+					if p.Shortcut {
+						return
+					}
+				}
+				last := n.Props[len(n.Props)-1].Node
+				if last.IsScalar() && len(last.Rules) == 0 && last.Note == "" {
+					last.Note = "a note"
+				}
+				n.Props = append(n.Props, model.PShort("@key", model.Int("1")))
+			})
+		}
 		// all styles that do not change meaning (rule order is kept: the AST lists rules as written)
 		st := model.Style{}
 		if k%2 == 1 {
 			st = c13Random(r).Style
+		}
+		switch k % 16 {
+		case 3:
+			st = model.Style{MultiLine: 1} // every annotation as /* {…} */ on one line
+		case 7:
+			st = model.Style{MultiLine: 3, NL: "\r\n"}
+		case 11:
+			st = model.Style{MultiLine: 1, QuoteNames: true}
 		}
 		if k%8 == 5 {
 			// one-line spelling with note-only annotations on any node (several nodes per line)
@@ -294,7 +327,24 @@ func c16Run(c *mon.Ctx, unit int) {
 			continue
 		}
 		if !o.OK {
-			c.Count("schemas rejected (no AST; skipped)", 1)
+			// the same schema in another spelling (house style / every annotation as /* */): when
+			// that one has an AST, the refusal is a matter of spelling
+			// (not for the one-line family, whose several notes per line the language refuses, nor for
+			// item notes opening with "{", which only the multi-line spellings write at all)
+			refused := true
+			for _, alt := range []model.Style{{}, {MultiLine: 1}} {
+				if alt == st || st.OneLine || c16BraceItemNote(s) {
+					continue
+				}
+				if _, ao := c16Observe(specOf(s, alt)); ao.OK {
+					c.Violate("ast-spelling", c16Case{sp, ""}, "an AST (as for the same schema in another spelling)", o.String(), "GetAST fails for one spelling of a schema and succeeds for another")
+					refused = false
+					break
+				}
+			}
+			if refused {
+				c.Count("schemas rejected (no AST; skipped)", 1)
+			}
 			continue
 		}
 		key, _ := json.Marshal(sp)
@@ -337,6 +387,37 @@ func init() {
 				_, o := c16Observe(cs.Spec)
 				return noPanic(o)
 			},
+			"ast-spelling": func(raw json.RawMessage) string {
+				var cs c16Case
+				json.Unmarshal(raw, &cs)
+				if _, o := c16Observe(cs.Spec); !o.OK {
+					return o.String()
+				}
+				return "an AST (as for the same schema in another spelling)"
+			},
 		},
 	})
+}
+
+// c16BraceItemNote: some enum value carries a note that opens with "{".
+func c16BraceItemNote(s *model.Schema) bool {
+	found := false
+	visit := func(n *model.Node) {
+		for _, r := range n.Rules {
+			for _, note := range r.ItemNotes {
+				if strings.HasPrefix(strings.TrimSpace(note), "{") {
+					found = true
+				}
+			}
+		}
+	}
+	if s.Root != nil {
+		s.Root.Walk(visit)
+	}
+	for _, t := range s.Types {
+		if t.Root != nil {
+			t.Root.Walk(visit)
+		}
+	}
+	return found
 }
